@@ -509,6 +509,36 @@ func worldStates(fn *ssa.Function, world map[ssa.Value]bool) []wstate {
 	return out
 }
 
+// worldStatesAvoiding: like worldStates, but the walk does not continue out of (nor report) blocks for which stop holds.
+func worldStatesAvoiding(fn *ssa.Function, world map[ssa.Value]bool, stop func(*ssa.BasicBlock) bool) []wstate {
+	seen := map[wstate]bool{}
+	var out []wstate
+	work := []wstate{{fn.Blocks[0], nil}}
+	for len(work) > 0 {
+		s := work[len(work)-1]
+		work = work[:len(work)-1]
+		if seen[s] || stop(s.b) {
+			continue
+		}
+		seen[s] = true
+		out = append(out, s)
+		succs := s.b.Succs
+		if iff, ok := s.b.Instrs[len(s.b.Instrs)-1].(*ssa.If); ok {
+			if v, ok := worldEval(world, iff.Cond, s, 0); ok {
+				if v {
+					succs = succs[:1]
+				} else {
+					succs = succs[1:]
+				}
+			}
+		}
+		for _, n := range succs {
+			work = append(work, wstate{n, s.b})
+		}
+	}
+	return out
+}
+
 func worldReach(fn *ssa.Function, world map[ssa.Value]bool) map[*ssa.BasicBlock]bool {
 	reach := map[*ssa.BasicBlock]bool{}
 	for _, s := range worldStates(fn, world) {
